@@ -1,7 +1,7 @@
 """C11 - cleaning removes exactly the broken or out-of-window traces.
 
 Model checking over stores x time_buffer: every multiset of <= 3 (4) traces
-over 14 trace kinds on a minute grid 0..5; x time_buffer x batch size x two
+over 16 trace kinds on a minute grid 0..5; x time_buffer x batch size x two
 ingestion orders.  Real code: ingestion, the three cleaning steps in the order
 of otel_to_pv, stream + sequence.  Oracle: set comprehension + differential
 frame condition against a fresh store holding only the survivors."""
@@ -25,6 +25,10 @@ KINDS = {
     'edge_lo': ((0, 1), (1, 1), ''), 'edge_hi': ((4, 5), (4, 4), ''),
     'dangle': ((2, 3), (2, 3), 'D'), 'dangle_out': ((0, 0), (0, 0), 'D'),
     'names': ((2, 3), (2, 3), 'N'), 'names_out': ((5, 5), (5, 5), 'N'),
+    # dangling parent AND a foreign workflow name on the dangling span
+    'dangle_names': ((2, 3), (2, 3), 'DN'),
+    # root + two children, one of them dangling under a foreign name
+    'dangle_sib': ((2, 3), (2, 3), 'DNS'),
 }
 
 
@@ -36,11 +40,17 @@ def mk(kind, k):
                 start_timestamp=r[0] * M, end_timestamp=r[1] * M,
                 application_name="a", parent_event_id=None)
     if 'D' in fl:
-        out.append(dict(job_name="n", job_id=jid, event_type="c",
+        out.append(dict(job_name="other" if 'N' in fl else "n", job_id=jid,
+                        event_type="c",
                         event_id=f"{jid}c", start_timestamp=c[0] * M,
                         end_timestamp=c[1] * M, application_name="a",
                         parent_event_id=f"{jid}missing"))
         out.append(root)
+        if 'S' in fl:
+            out.append(dict(job_name="n", job_id=jid, event_type="d",
+                            event_id=f"{jid}d", start_timestamp=c[0] * M,
+                            end_timestamp=c[1] * M, application_name="a",
+                            parent_event_id=f"{jid}r"))
         return out
     out.append(root)
     if c:
@@ -217,7 +227,7 @@ def collect(tier, tasks, results, ctx):
         "states": ncases, "transitions": n,
         "traces_validated_against_impl": n,
         "evaluations": n, "distinct_nontrivial": nontrivial,
-        "rule": "every multiset of traces over 14 trace kinds (inside / "
+        "rule": "every multiset of traces over 16 trace kinds (inside / "
                 "straddling / outside the window, dangling parent, foreign "
                 "workflow name on a child; single span and root+child) up to "
                 "the bound x time_buffer x 2 batch sizes x 2 ingestion "
